@@ -45,6 +45,7 @@ class VLoop(asyncio.BaseEventLoop):
         self._stop_when = None
         self.timer_fired = 0
         self.setup = False            # True: deterministic, unrecorded
+        self.on_timer = None          # callable() when a timer is fired
 
     # -- BaseEventLoop plumbing -------------------------------------------
     def time(self):
@@ -100,6 +101,8 @@ class VLoop(asyncio.BaseEventLoop):
             obj.set_result(None)
         else:
             self.timer_fired += 1
+            if self.on_timer:
+                self.on_timer()
             if obj > self._vtime:
                 self._vtime = obj
 
